@@ -25,6 +25,31 @@ CHECKS.update({
          "definitions of deferred-deleted entities is refuted with a witness (known finding D13). Tie: lock step on swap-heavy histories; relabeling oracle.",
          "Coq proof (relabeling, involution) + refutation witness; lock-step correspondence; relabeling oracle", "6 C17"),
 })
+CHECKS.update({
+ "C02": ("proof", "Theorems: the closure a deletion gathers through the incidence caches equals the brute-force closure over the stored definitions of not-deleted entities whenever the caches "
+         "are exact (and is that scan literally when a kind is off); in deferred mode delete_vertex/edge/face/cell flag exactly the entity and its closure, leave all definitions, other flags, "
+         "property values and modes untouched and advance the counters by the number of newly flagged entities; counters stay exact. Immediate/fast modes (renumbering) are tied by lock step "
+         "and the identity-token closure oracle in all four modes, not yet proved.",
+         "Coq proof (closure = brute force; deferred deletion exact) + lock-step correspondence in all modes + closure oracle", "6 C02"),
+ "C05": ("proof", "Theorems about the cursor machines of every iterator/circulator class for arbitrary lists, max_laps and step counts (forward trace = list x laps, end = advanced begin, prev/next inverse "
+         "inside the valid range, empty centre invalid, entity iterators = live entities ascending once), builder lists = incident sets under cache exactness. Refuted with witness: valid() after stepping "
+         "back from end (known finding D11). Tie: lock step of every accessor on generated states; brute-force oracles.",
+         "Coq proof of cursor machines and builder lists; lock-step correspondence on all accessors; brute-force incident-set oracle", "6 C05"),
+ "C09": ("proof", "Theorems: inside a closed cell adjacent_halfface_in_cell returns the unique other halfface at the edge and is an involution; reorder_incident_halffaces on a single fan yields the rotational "
+         "order with the mirrored list on the opposite halfedge, is a permutation and idempotent. The history-level invariant (every reachable fan edge stays ordered) is tied by lock step on ordered cache "
+         "dumps and the fan oracle, not proved.",
+         "Coq proof (adjacency involution, reorder postcondition) + lock-step correspondence incl. cache order + fan oracle", "6 C09"),
+ "C10": ("proof", "Soundness and completeness theorems for every lookup against the brute-force relation over stored definitions under cache exactness and the documented preconditions; completeness of the "
+         "vertex forms is refuted with parallel edges (known finding) and proved without them. Tie: exhaustive query batches in lock step; brute-force relation oracle.",
+         "Coq proof (sound/complete per lookup) + refutation witness; lock-step correspondence on exhaustive query batches; brute-force oracle", "6 C10"),
+ "C19": ("proof", "Theorems for every dimension: each VectorT operator (as the algorithm of the header) equals its component-wise definition; integer algebra over Z (order, dot, cross incl. Lagrange identity, lattice laws); "
+         "unsigned = mod 2^32; geometry queries = defining sums; opposite normals for triangles and planar convex faces. Refuted with witnesses: l1_norm (known finding D12), opposite normals on planar non-convex faces. "
+         "Floating point is checked against the exact rational model under explicit rounding bounds, not proved.",
+         "Coq proof over Z/Q models of the header algorithms; differential run incl. exact-rational error bounds; defining-formula oracle", "6 C19"),
+ "C20": ("proof", "PARTIAL: proved - every interleaving of read-only steps yields per thread the sequential outputs and leaves the state unchanged; the table of const members regenerated from the clang AST on every run has no "
+         "own writes, mutable members (except the registry's tracker map, as the property excludes), const_casts or local statics. Observed only (ThreadSanitizer, 2..16 threads): absence of data races in the binary.",
+         "Coq proof (schedule theorem + regenerated const-write table decided by computation); TSan stress run", "6 C20"),
+})
 NOT_YET = {}
 def main():
     props = [json.loads(l)["id"] for l in open(os.path.join(VERIF, "properties.jsonl"))]
